@@ -153,6 +153,26 @@ def run(res, tier, seed):
             res.count("wide_stream_entry_beyond_32_bits")
         cases.append((lambda it, m=m, cols=cols, rows=rows:
                       f"(true, {dump(m, it)}, {lst(f'({it.s(c)}, ({z(lo)}, {z(hi)}))' for c, (lo, hi) in cols)}, {lst(lst(z(v) for v in r) for r in rows)})", (ast,)))
+    # the oracle's "keeps solver-safe form" predicate and the constructors themselves against SafeFacts.keeps_safe / Cons.build
+    scases = []
+    for ast, m in models[: (200 if tier == "quick" else 2500)]:
+        if any(("vb" in a) for a in [ast]) or "Cc" in json.dumps(ast_json(ast)):
+            continue
+        orc = IdOracle()
+        try:
+            with orc:
+                m2 = build(ast)
+            scases.append((lambda it, ast=ast, m2=m2, orc=orc: f"({orc.term(it)}, {form_term(ast, it)}, {b(expects_safe(ast))}, {dump(m2, it)})", (ast,)))
+        except Exception as e:
+            res.count("safe_case_error:" + type(e).__name__)
+    ns, sfailing, serrs = run_case_shards("C02", "safe", "", "idtable * form * bool * prop", "check_safe", scases, imports="Puan.Plog Puan.Sem Puan.Corr Puan.Cons Puan.SafeFacts Puan.CorrSafe")
+    res.corr_cases += ns; res.evaluations += ns
+    for e in serrs:
+        res.violation("corr", "correspondence shard failed: " + e, {"check": "CorrSafe.check_safe", "error": e})
+    for i in sfailing[:10]:
+        (ast,) = scases[i][1]
+        res.violation("corr", f"constructor model / keeps_safe differs from the implementation on {json.dumps(ast_json(ast))[:300]} (harness predicate {expects_safe(ast)}, built model solver safe: {solver_safe(build(ast))})",
+                      {"check": "CorrSafe.check_safe", "model": ast_json(ast), "failing_input_found": False})
     n, failing, errs = run_case_shards("C02", "encode", "", "bool * prop * list (ident * (Z * Z)) * list (list Z)", "check_encode", cases)
     res.corr_cases += n; res.evaluations += n
     for e in errs:
